@@ -110,7 +110,7 @@ def stmt(c, st):
     """one Python statement -> Lean text of a Stmt (or None for a docstring)"""
     if isinstance(st, ast.Expr) and isinstance(st.value, ast.Constant) and isinstance(st.value.value, str):
         return None
-    if c.kind.startswith("lru") and c.key is None and key_stmt(c, st):
+    if c.kind.startswith("lru") and c.key in (None, "key") and key_stmt(c, st):
         return ".computeKey"
     # ---- with <lock>:
     if isinstance(st, ast.With):
@@ -313,3 +313,103 @@ def translate_all(src):
     defs.append("/-- the programs of the tzoffset factory (+ gettz, singleton, instance) -/\ndef offsetPrograms : Programs :=\n  %s\n" % progs("offsetCall"))
     defs.append("/-- the programs of the tzstr factory -/\ndef strPrograms : Programs :=\n  %s\n" % progs("strCall"))
     return "\n".join(defs), fps
+
+
+# --------------------------------------------------------------------------------------------------------
+# statement tables for the thread scheduler (harness/sched18.py): source line -> the pc of the state machine
+# the thread is AT when paused before that line, and whether executing the line is a model statement.
+# Derived from the SAME AST walk as the IR (instruction indices by the size rules of Model/FactoryIR.lean
+# `sizeS`, pc names by its `enc` layout); replaces the former regular-expression "source-shape" tables.
+# The copy of sizes / layout kept here is checked on every run by the per-statement pc comparison against
+# the driver (fact.run / fact.runir).
+# --------------------------------------------------------------------------------------------------------
+ENC = {
+    "lru": ["lAcq", "lGet", "lTest", "lAlloc", "lInit", "lSdRead", "lSdWrite", "xTouch", "xLen", "xEvict", "xRel", "xRet",
+            "idle", "xRelX"],
+    "gettz": ["gAcq", "gGet", "gTest", "gAlloc", "gInit", "gCheck", "gStore", "gRelE", "gRetE", "xTouch", "xLen", "xEvict",
+              "xRel", "xRet", "idle", "xRelX"],
+    "setsize": ["sAcq", "sSet", "sLoop", "sPop", "sRel"],
+    "clear": ["cAcq", "cWeak", "cStrong", "cRel"],
+    "single": ["uTest", "uAlloc", "uInit", "uStore", "uRet"],
+}
+
+
+def _size(c, st):
+    """number of instructions of a statement (Model/FactoryIR.lean `sizeS`); statements are classified by `stmt`"""
+    t = stmt(c, st)
+    return _size_text(c, st, t)
+
+
+def _size_text(c, st, t):
+    if t is None or t == ".computeKey":
+        return 0
+    head = t.split(" ")[0]
+    if head == ".withLock":
+        return sum(_size(c, x) for x in st.body) + 2
+    if head == ".assignWeak":
+        return {".get .none": 1, ".get .construct": 3, ".setdefault .none": 2, ".setdefault .construct": 4}[" ".join(t.split(" ")[1:3])]
+    if head in (".ifInstNone", ".ifLen", ".whileLen", ".ifSlotNone"):
+        return sum(_size(c, x) for x in st.body) + 1
+    if head == ".ifCacheable":
+        return sum(_size(c, x) for x in st.body) + sum(_size(c, x) for x in st.orelse) + 1
+    return {".assignNocache": 2, ".retInst": 2, ".slotAssignConstruct": 3, ".retConstruct": 3}.get(head, 1)
+
+
+def _walk(c, body, i, in_lock, enc, table):
+    name = lambda j: enc[j] if j < len(enc) else "idle"
+    for st in body:
+        t = stmt(c, st)
+        if t is None:
+            continue
+        head = t.split(" ")[0]
+        n = _size_text(c, st, t)
+        L = st.lineno
+        if head == ".computeKey":
+            pass                                                    # local computation: no model statement
+        elif head == ".withLock":
+            table[L] = [(name(i), True), ("REL", True)]             # acquire; second visit: the `with` exit
+            _walk(c, st.body, i + 1, True, enc, table)
+        elif head == ".assignWeak" and t.endswith(".construct"):
+            Lc = st.value.args[1].lineno
+            read = i + 2
+            if Lc != L:
+                table[L] = [(name(i), False), (name(read), True)]   # first visit loads the method, second calls it
+                table[Lc] = [(name(i), True), None]                 # the argument line constructs the object
+            else:
+                table[L] = [(name(i), True), None]
+        elif head in (".ifInstNone", ".ifLen", ".whileLen", ".ifSlotNone"):
+            table[L] = [(name(i), True), (name(i), True)] if head == ".whileLen" else [(name(i), True), None]
+            _walk(c, st.body, i + 1, in_lock, enc, table)
+        elif head == ".ifCacheable":
+            table[L] = [(name(i), True), None]
+            for extra in range(L + 1, (st.test.end_lineno or L) + 1):
+                table[extra] = [(None, False), None]                # continuation lines of the condition
+            _walk(c, st.body, i + 1, in_lock, enc, table)
+            _walk(c, st.orelse, i + 1 + sum(_size(c, x) for x in st.body), in_lock, enc, table)
+        elif head == ".retInst":
+            table[L] = [(name(i), not in_lock), None]               # inside `with`: the exit (next line event) does the work
+        else:
+            table[L] = [(name(i), True), None]
+        i += n
+
+
+TABLE_SPECS = {"offsetCall": "lru", "strCall": "lru", "gettzCall": "gettz", "gettzSetCacheSize": "setsize",
+               "gettzCacheClear": "clear", "singletonCall": "single"}
+
+
+def statement_tables(src):
+    """{lean name of the method: {lineno: [first visit, second visit]}}; raises Untranslatable like translate_all"""
+    trees, out = {}, {}
+    for lean_name, rel, path, recv, kind, params in SPECS:
+        if lean_name not in TABLE_SPECS:
+            continue
+        if rel not in trees:
+            trees[rel] = ast.parse(open(os.path.join(src, rel)).read())
+        fn = locate(trees[rel], path)
+        method_prog(fn, recv, kind, params)                         # the strict translation must succeed first
+        c = Ctx(recv, [x.arg for x in fn.args.args][1:], kind)
+        block(c, fn.body)                                           # binds c.var / c.key as the translation does
+        table = {}
+        _walk(c, fn.body, 0, False, ENC[TABLE_SPECS[lean_name]], table)
+        out[lean_name] = table
+    return out
